@@ -44,7 +44,9 @@ def run(ctx):
     ctx.rule_text = ('one obligation per mutation site in scope, per read of a per-call attribute on a public path, per '
                      'configuration attribute, per mutable-default parameter, per random draw')
     ctx.trusted = ['call resolution by receiver kind / method name over the scope; library calls allocate unless tabled as views',
-                   'callbacks supplied by the user are outside the check']
+                   'callbacks supplied by the user are outside the check',
+                   'a remembered construction keyed by frozenset / tuple of a collection (engines/memo.py keyed_snapshot) depends on that collection '
+                   'only through the key: a model\'s structure is a function of its set of cliques']
     scope = Scope(repo, UNITS, PARAM_KINDS)
     scope.solve()
     methods = repo.nmethods(INF, 'FactoredInference')
@@ -58,6 +60,14 @@ def run(ctx):
                 percall.discard(X)
                 for sn in (verdict[2] if len(verdict) > 2 else []):
                     percall.discard(sn)
+    from ..engines.memo import keyed_snapshots_of
+    for name, m in repo.methods(INF, 'FactoredInference').items():
+        for vattr, kattr, valid, why, node_ in keyed_snapshots_of(repo, m):
+            ctx.ob('memo-validity', m, m.node, valid, 'remembered construction self.%s keyed by self.%s: %s' % (vattr, kattr, why),
+                   construct='keyed snapshot self.%s in %s' % (vattr, m.name))
+            if valid:
+                percall.discard(vattr)
+                percall.discard(kattr)
     ctx.count('per-call attributes', len(percall))
     ctx.count('configuration attributes', len(config))
     if not percall:
